@@ -24,7 +24,9 @@ W6(c) == Expected(c).ret = "result" /\ Expected(c).action = "decline" /\ Expecte
 W7(c) == Expected(c).ret = "result" /\ Expected(c).zv
 W8(c) == c.path = "m0728" /\ Expected(c).ret = "result" /\ Expected(c).action = "accept" /\ Expected(c).pv = "same"
 W9(c) == ~SchemaWF(c.sch) /\ c.kind = "schema" /\ Expected(c).asked = 0
-Witnesses == /\ Some(W1) /\ Some(W2) /\ Some(W3) /\ Some(W4) /\ Some(W5) /\ Some(W6) /\ Some(W7) /\ Some(W8) /\ Some(W9)
+W10(c) == c.path = "rawc" /\ Expected(c).ret = "error" /\ Expected(c).code = "local" /\ Expected(c).sent /\ c.res.val = "wrongtype"
+W11(c) == c.path = "rawc" /\ Expected(c).ret = "result" /\ Expected(c).pv = "default"
+Witnesses == /\ Some(W1) /\ Some(W2) /\ Some(W3) /\ Some(W4) /\ Some(W5) /\ Some(W6) /\ Some(W7) /\ Some(W8) /\ Some(W9) /\ Some(W10) /\ Some(W11)
              /\ (\A d \in {"D1", "D2", "D3"} : \E c \in CaseSet : Deviation(c) = d)
              /\ (\A path \in Paths \ {"d0728"} : \E c \in CaseSet : c.path = path /\ Expected(c).asked = 1)
 
